@@ -8,12 +8,21 @@ class TidierExtreme:
     right: Optional[BinaryTreeNode]
     thread: Optional[BinaryTreeNode]
     offset: float
+    # level of each extreme node and its offset from the root of the subtree
+    left_level: int
+    right_level: int
+    left_offset: float
+    right_offset: float
 
     def __init__(self) -> None:
         self.left = None
         self.right = None
         self.thread = None
         self.offset = 0
+        self.left_level = -1
+        self.right_level = -1
+        self.left_offset = 0.0
+        self.right_offset = 0.0
 
 
 class TreeMeasurement:
@@ -79,12 +88,8 @@ class TreeLayout:
 
         # Avoid selecting as extreme
         if not node:
-            if extremes.left is not None:
-                extremes.left.level = -1
-
-            if extremes.right is not None:
-                extremes.right.level = -1
-
+            extremes.left_level = -1
+            extremes.right_level = -1
             return self
 
         # Forget any thread left behind by an earlier layout of this node
@@ -103,12 +108,8 @@ class TreeLayout:
         if not node.right and not node.left:
             node.offset = 0
             extremes.right = extremes.left = node
-            return self
-
-        # if only a single child, assign the next available offset and return.
-        if not node.right or not node.left:
-            node.offset = min_separation
-            extremes.right = extremes.left = node.left if node.left else node.right
+            extremes.left_level = extremes.right_level = level
+            extremes.left_offset = extremes.right_offset = 0.0
             return self
 
         # Set the current separation to the minimum separation for the root of the
@@ -117,7 +118,9 @@ class TreeLayout:
         left_offset_sum = right_offset_sum = 0
 
         # Traverse the subtrees until one of them is exhausted, pushing them apart
-        # as needed.
+        # as needed. `left` follows the right contour of the left subtree and `right`
+        # the left contour of the right subtree; a leaf continues along its thread,
+        # whose (signed) distance is kept in the leaf's offset.
         loops = 0
         while left and right:
             loops = loops + 1
@@ -128,72 +131,72 @@ class TreeLayout:
                 root_separation += min_separation - current_separation
                 current_separation = min_separation
 
-            if left.right and left.offset:
-                left_offset_sum += left.offset
-                current_separation -= left.offset
-                left = getattr(left, "thread", left.right)
-            elif left.offset is not None:
-                left_offset_sum -= left.offset
-                current_separation += left.offset
-                left = getattr(left, "thread", left.left)
+            assert left.offset is not None and right.offset is not None
+            if left.right:
+                step = left.offset
+                left = left.right
+            elif left.left:
+                step = -left.offset
+                left = left.left
+            else:
+                step = left.offset if getattr(left, "thread", None) else 0.0
+                left = getattr(left, "thread", None)
+            left_offset_sum += step
+            current_separation -= step
 
-            if right.left and right.offset:
-                right_offset_sum -= right.offset
-                current_separation -= right.offset
-                right = getattr(right, "thread", right.left)
-            elif right.offset is not None:
-                right_offset_sum += right.offset
-                current_separation += right.offset
-                right = getattr(right, "thread", right.right)
+            if right.left:
+                step = -right.offset
+                right = right.left
+            elif right.right:
+                step = right.offset
+                right = right.right
+            else:
+                step = right.offset if getattr(right, "thread", None) else 0.0
+                right = getattr(right, "thread", None)
+            right_offset_sum += step
+            current_separation += step
 
-        # Set the root offset, and include it in the accumulated offsets.
-        node.offset = (root_separation + 1) / 2
+        # Set the root offset, and include it in the accumulated offsets. An only child
+        # is placed at the minimum separation.
+        if node.left and node.right:
+            node.offset = (root_separation + 1) / 2
+        else:
+            node.offset = min_separation
         assert node.offset is not None
         left_offset_sum -= node.offset
         right_offset_sum += node.offset
 
-        # Update right and left extremes
-        right_left_level = getattr(right_extremes.left, "level", -1)
-        left_left_level = getattr(left_extremes.left, "level", -1)
-        if right_left_level > left_left_level or not node.left:
+        # Update right and left extremes: the extreme nodes of the deeper subtree, with
+        # their offsets now relative to this node.
+        if right_extremes.left_level > left_extremes.left_level or not node.left:
             extremes.left = right_extremes.left
-            if extremes.left:
-                assert extremes.left.offset is not None
-                extremes.left.offset += node.offset
-
+            extremes.left_level = right_extremes.left_level
+            extremes.left_offset = right_extremes.left_offset + node.offset
         else:
             extremes.left = left_extremes.left
-            if extremes.left:
-                assert extremes.left.offset is not None
-                extremes.left.offset -= node.offset
+            extremes.left_level = left_extremes.left_level
+            extremes.left_offset = left_extremes.left_offset - node.offset
 
-        left_right_level = getattr(left_extremes.right, "level", -1)
-        right_right_level = getattr(right_extremes.right, "level", -1)
-        if left_right_level > right_right_level or not node.right:
+        if left_extremes.right_level > right_extremes.right_level or not node.right:
             extremes.right = left_extremes.right
-            if extremes.right:
-                assert extremes.right.offset is not None
-                extremes.right.offset -= node.offset
-
+            extremes.right_level = left_extremes.right_level
+            extremes.right_offset = left_extremes.right_offset - node.offset
         else:
             extremes.right = right_extremes.right
-            if extremes.right:
-                assert extremes.right.offset is not None
-                extremes.right.offset += node.offset
+            extremes.right_level = right_extremes.right_level
+            extremes.right_offset = right_extremes.right_offset + node.offset
 
         # If the subtrees have uneven heights, check to see if they need to be
         # threaded.  If threading is required, it will affect only one node.
-        if left and left != node.left and right_extremes and right_extremes.right:
+        if left and left != node.left and right_extremes.right:
             right_extremes.right.thread = left
-            assert right_extremes.right.offset is not None
-            right_extremes.right.offset = abs(
-                right_extremes.right.offset + node.offset - left_offset_sum
+            right_extremes.right.offset = left_offset_sum - (
+                right_extremes.right_offset + node.offset
             )
-        elif right and right != node.right and left_extremes and left_extremes.left:
+        elif right and right != node.right and left_extremes.left:
             left_extremes.left.thread = right
-            assert left_extremes.left.offset is not None
-            left_extremes.left.offset = abs(
-                left_extremes.left.offset - node.offset - right_offset_sum
+            left_extremes.left.offset = right_offset_sum - (
+                left_extremes.left_offset - node.offset
             )
 
         return self
